@@ -51,7 +51,31 @@ def t_region_loading(ctx):
         pass
     want = [None, given, loaded, None][which]
     lab = "load_globals.region_%s" % ["none", "object", "file", "missing_file"][which]
-    ctx.oblige("post", lab + ".is_the_callers_region_on_every_path", gd.fields.get('region') is want)
+    got = gd.fields.get('region')
+    if isinstance(got, _CopyModel) and want is not None:
+        # a copy is acceptable only if it has the caller's resolution and was filled from the caller's region and nothing else
+        import z3 as _z3
+        from pyvc.values import Sym as _Sym
+        gdepth = _Sym(_z3.Int('callers_maxdepth'))
+        ctx.assume(gdepth >= 1)
+        made = got.maxdepth if got.maxdepth is not None else 11       # Region() defaults to maxdepth 11
+        ctx.oblige("post", lab + ".is_the_callers_region_on_every_path",
+                   (made == gdepth) if got.unions == [want] else False)
+    else:
+        ctx.oblige("post", lab + ".is_the_callers_region_on_every_path", got is want)
+
+
+class _CopyModel(_RegionModel):
+    """a Region made inside load_globals"""
+
+    def __init__(self, maxdepth):
+        _RegionModel.__init__(self)
+        self.maxdepth, self.unions = maxdepth, []
+
+    def getattr_(self, ctx, name):
+        if name == 'union':
+            return _Model(lambda c, other, **kw: self.unions.append(other), 'Region.union')
+        return _RegionModel.getattr_(self, ctx, name)
 
 
 class _RegionClass(_NS):
@@ -59,6 +83,15 @@ class _RegionClass(_NS):
     def __init__(self, loaded):
         _NS.__init__(self, 'Region', load=_Model(lambda c, f: loaded, 'Region.load'))
         self.name = 'Region'
+
+    def call_(self, ctx, args, kwargs):
+        md = kwargs.get('maxdepth', args[0] if args else None)
+        if hasattr(md, 'getattr_') or (md is not None and not isinstance(md, int)):
+            # e.g. Region(maxdepth=mask.maxdepth): the caller's own depth
+            import z3 as _z3
+            from pyvc.values import Sym as _Sym
+            md = _Sym(_z3.Int('callers_maxdepth'))
+        return _CopyModel(md)
 
 
 _base_verify = verify
